@@ -7,9 +7,10 @@
    timeout, and ANY list of events (completions of pending attempts with success
    or failure in any order, including completions of attempts that do not exist
    or are already complete, and firings of the two timers at any point). *)
+From Coq Require Import String.
 From Coq Require Import List ZArith Bool.
 Import ListNotations.
-From TV Require Import Lib.Obs C10.Model C10.Run C10.Proofs C10.Proofs3 C10.Proofs7 C10.Proofs11.
+From TV Require Import Lib.Obs C10.Model C10.Run C10.RunClient C10.Proofs C10.Proofs3 C10.Proofs7 C10.Proofs11 C10.ProofsClient.
 
 (* (INV-1) The future is resolved at most once and never changes afterwards;
    no attempt is started after resolution. *)
@@ -169,6 +170,47 @@ Theorem C10_checker_accepts_model :
   forall i, check_case i (run_case i) = true.
 Proof. exact checker_accepts_model. Qed.
 Print Assumptions C10_checker_accepts_model.
+
+(* ---------- second entry point: the public TCPClient.connect(host, port, timeout=...) ---------- *)
+
+(* (CLIENT-1) The deadline reaches the connector: with a resolver that answers, what the caller of
+   TCPClient.connect observes (completion, attempts, close() calls, remaining, timers) is exactly
+   the _Connector run with "connect timer present" = "a timeout was given" - a number and a
+   timedelta alike - so every theorem above holds through the public entry point: in particular
+   the deadline firing while attempts are pending closes them, and nothing starts afterwards. *)
+Theorem C10_client_connect_is_connector_with_deadline :
+  forall t addrs b es, t <> TBad ->
+    run_case2 (Client t RNow, (addrs, b, es)) = run_case (addrs, has_deadline t, es) /\
+    has_deadline TNumber = has_deadline TTimedelta /\ has_deadline TNone = false.
+Proof. intros t addrs b es H. repeat split. apply client_is_connector. exact H. Qed.
+Print Assumptions C10_client_connect_is_connector_with_deadline.
+
+(* (CLIENT-2) An unsupported timeout type is rejected before anything is opened. *)
+Theorem C10_client_bad_timeout_is_TypeError :
+  forall r i, run_case2 (Client TBad r, i) = OTag "TypeError"%string.
+Proof. exact client_bad_timeout. Qed.
+Print Assumptions C10_client_bad_timeout_is_TypeError.
+
+(* (CLIENT-3) While the resolver has not answered nothing is opened, and the call ends only by
+   TimeoutError, only if a deadline was given and the deadline event occurred; once ended it
+   never changes. *)
+Theorem C10_client_resolver_wait :
+  forall dl es f, In f (resolve_wait dl FPending es) ->
+    f = FPending \/ (f = FTimeout /\ dl = true /\ In EConnectTimer es).
+Proof. exact resolve_wait_values. Qed.
+Print Assumptions C10_client_resolver_wait.
+
+Theorem C10_client_resolver_wait_resolved_once :
+  forall dl es f, f <> FPending -> Forall (fun g => g = f) (resolve_wait dl f es).
+Proof. intros dl es f. apply resolve_wait_once. Qed.
+Print Assumptions C10_client_resolver_wait_resolved_once.
+
+(* (CLIENT-CHECK) the checker applied to the implementation through either entry point accepts
+   the model, for every input. *)
+Theorem C10_client_checker_accepts_model :
+  forall i, check_case2 i (run_case2 i) = true.
+Proof. exact client_checker_accepts_model. Qed.
+Print Assumptions C10_client_checker_accepts_model.
 
 (* The hypotheses are satisfiable and the statements are not vacuous: a run in which
    the secondary family wins, the late primary success is closed, nothing leaks. *)
